@@ -21,6 +21,8 @@ pub fn attempt_end(cert_id: &str, ok: bool) {
 			*w.attempts_ok.entry(cert_id.to_string()).or_insert(0) += 1;
 		}
 		let snap = std::rc::Rc::new(super::snap::pair(w, cert_id));
+		let accs = super::snap::accounts(w);
+		w.account_snaps.push((w.seq + 1, format!("attempt_end:{}", cert_id), accs));
 		w.push(Ev::AttemptEnd {
 			cert: cert_id.to_string(),
 			ok,
